@@ -41,7 +41,9 @@ def ref_child():
 
 RENDER_OPTS = st.fixed_dictionaries({
     "fw": st.sampled_from(gen.FRAMEWORKS), "nested": st.booleans(),
-    "max_literals": st.sampled_from([10, 0, 2]), "pic": st.booleans(), "meta": st.booleans()})
+    "max_literals": st.sampled_from([10, 0, 2]), "pic": st.booleans(), "meta": st.booleans(),
+    # explicit types_style overrides of the documented kind (None = generator defaults)
+    "style": st.sampled_from([None, None, None, "no-actual-type", "no-literals", "actual-type"])})
 
 
 @st.composite
@@ -60,6 +62,14 @@ def cases(draw, tier="quick"):
         optsets.append({k: o[k] for k in ("merge", "sreg", "dkr", "dkf", "unicode")})
     nops = draw(st.integers(2, 4 if tier == "quick" else 8))
     ops = [["generate", 0, 0]]
+    if draw(st.integers(0, 4)) == 0:
+        # scenario: an in-process CLI run that changes the process-global string registry, then a generation with an
+        # explicitly passed registry, then its render
+        ops.append(["cli", draw(st.sampled_from([["--disable-str-serializable-types", "float"], ["--disable-str-serializable-types", "int", "bool"],
+                                                  ["--datetime", "--disable-str-serializable-types", "float", "date"]]))])
+        ops.append(["generate", draw(st.integers(0, ninputs - 1)), draw(st.integers(0, len(optsets) - 1))])
+        ops.append(["render", len(ops) % 3 if False else 1, draw(RENDER_OPTS)])
+        nops = max(0, nops - 2)
     if draw(st.integers(0, 2)) == 0:
         # scenario: a render that fails inside the reference-context block, then a compared render of the same registry
         fo = draw(RENDER_OPTS)
@@ -104,7 +114,8 @@ def valid(case):
                 if not (0 <= op[1] < len(case["inputs"]) and 0 <= op[2] < len(case["optsets"])):
                     return False
             elif k in ("render", "render_failing", "render_model"):
-                if not (isinstance(op[1], int) and 0 <= op[1] <= 2 and op[2].get("fw") in pl.FRAMEWORKS and c01.opts_valid(op[2])):
+                if not (isinstance(op[1], int) and 0 <= op[1] <= 2 and op[2].get("fw") in pl.FRAMEWORKS and c01.opts_valid(op[2])
+                        and op[2].get("style") in (None, "no-actual-type", "no-literals", "actual-type")):
                     return False
                 if k == "render_model" and not (len(op) == 4 and isinstance(op[3], int) and 0 <= op[3] <= 50):
                     return False
